@@ -8,7 +8,7 @@ package stack
 // is selected by the "family" parameter so that every family stays small:
 //
 //	fam 0: state, lock flag, sleep            (frames/args identical)
-//	fam 1: argument values / pointer-ness     (1 frame: scalar + 1-field aggregate)
+//	fam 1: argument values / pointer-ness     (1 frame: scalar, 1-field aggregate, scalar)
 //	fam 2: frame function, file, line         (no args)
 //	fam 3: creator function/line              (one constant frame)
 //	fam 4: location class / main flag         (ordering; no args)
@@ -67,6 +67,10 @@ func vhAggCall(tag string, fam int) Call {
 	switch fam {
 	case famArgs, famArgFlags, famNames:
 		c.Args.Values = []Arg{vhArg(tag+".a0", fam), {IsAggregate: true, Fields: Args{Values: []Arg{vhArg(tag+".a1", fam)}}}}
+		if fam == famArgs {
+			// an argument after the aggregate
+			c.Args.Values = append(c.Args.Values, vhArg(tag+".a2", fam))
+		}
 		if fam == famArgFlags {
 			c.Args.Elided = vBool(tag + ".elided")
 			c.Args.Values[1].Fields.Elided = vBool(tag + ".elidedfields")
